@@ -145,6 +145,10 @@ func main() {
 		crashChildMain(os.Args[2:])
 		return
 	}
+	if dom == "slotchild" {
+		slotChildMain(os.Args[2:])
+		return
+	}
 	if dom == "credchild" {
 		credChildMain(os.Args[2:])
 		return
